@@ -296,8 +296,27 @@ def t_fixed():
     return stats
 
 
+def t_long():
+    """projections out of arrays of 200 elements and objects of 100 members: sparse two- and three-digit indices, long selections"""
+    stats = Stats()
+    n = 0
+    doc = {"arr": [{"x": i, "y": [i, i + 1, i + 2]} for i in range(200)], "obj": {"k%d" % i: [i, {"z": i}] for i in range(100)}, "nums": list(range(150))}
+    matchq = ["$", "$.arr", "$.obj", "$.nums", "$.arr[150]", "$.arr[?@.x > 195]"]
+    exprsets = [["arr[0]", "arr[64]", "arr[65]", "arr[199]"], ["arr[9].x", "arr[10].x", "arr[100].y[2]"], ["[63:67]"], ["[::37]"], ["[199]"], ["[10]", "[100]"],
+                ["nums[100]", "nums[101]", "nums[149]"], ["nums[9]", "nums[10]", "nums[11]"], ["nums[::-1]"], ["obj.k99[1].z", "obj.k9[0]"], ["k64", "k65[1]"], ["*[0]"],
+                ["arr[*].x"], ["nums[*]"], ["y[2]", "x"], ["arr[100:103].y[1:]"], ["[?@.x > 197].y[0]"], ["[149]", "[0]"]]
+    for mq in matchq:
+        for ex in exprsets:
+            for style in STYLES:
+                judge(stats, copy.deepcopy(doc), mq, ex, style, False, "long")
+                n += 1
+            stats.nt("long", mq, canon(ex))
+    stats.subspaces.append({"name": "6 match queries x 18 expression sets x 3 styles on a document with a 200-element array, a 100-member object and a 150-number array", "size": n, "exhaustive": True})
+    return stats
+
+
 def tasks(tier, seed):
-    ts = [{"name": "fixed", "fn": "t_fixed"}]
+    ts = [{"name": "fixed", "fn": "t_fixed"}, {"name": "long", "fn": "t_long"}]
     n = 1500 if tier == "quick" else 25000
     for k in range(15):
         ts.append({"name": "random-%d" % k, "fn": "t_random", "kw": {"seed": mix(seed, ID, k), "n": n}})
